@@ -12,6 +12,10 @@ Tasks.  Helper lemmas and the inductive invariants are in Proofs/Coro*.lean.
 -/
 import YaclibModel.Proofs.CoroProgress
 import YaclibModel.Proofs.CoroMulti4
+import YaclibModel.Proofs.CoroExec2
+import YaclibModel.Proofs.StrandTowerInline
+import YaclibModel.Proofs.StrandTowerManual
+import YaclibModel.Proofs.PoolExecContract
 import YaclibModel.Extracted.Kernels
 import YaclibModel.Model.Skeletons
 
@@ -555,6 +559,118 @@ theorem W2_ok : OK W2 := by
     simp [Workload.cell, MWorkload.proj, W2, MWorkload.cellW, MWorkload.gcell]
 
 end Yaclib.Props.C13.Multi
+
+/-! ### over a real executor (Proofs/CoroExec*.lean)
+
+One named executor `ex` of the workload is an executor *model* `E` (`Yaclib.Strand.Exec`: Inline, Manual, the thread pool, a tower of
+strands …) instead of an abstract contract executor; the other executor ids stay abstract.  `submit ex` = `sub j`, the resumption =
+`call j` (the coroutine's next segment is the body of job j, `ret j` when the segment is over), `E`'s `drop j` = the model's Drop. -/
+namespace Yaclib.Props.C13.Over
+open Yaclib.Coro
+open Yaclib.Strand (Exec XEv Prot Phase ExecContract inlineExec inline_contract manualExec manual_contract tower
+  tower_satisfies_contract)
+open Yaclib.Pool (poolExec pool_contract)
+
+variable {w : Workload} {E : Exec} {ex : Nat} {s : XState E}
+
+/-- for EVERY executor model: the coroutine component is a reachable state of the plain model, and the coroutine is a
+    protocol-honouring client of `E` (submits a job once, returns only from a body that was entered) -/
+theorem projects (h : XReach w E ex s) : Reachable w s.m ∧ E.Run s.x s.p := xcoro_projects h
+
+theorem resume_once_over (hwf : w.WF) (hwt : w.WFT) (h : XReach w E ex s) : s.m.resumed.map (·.k) = List.range s.m.k :=
+  C13.resume_once hwf hwt (xcoro_projects h).1
+
+theorem resume_after_all_complete_over (hwf : w.WF) (hwt : w.WFT) (h : XReach w E ex s) : ∀ r ∈ s.m.resumed, r.allDone = true :=
+  C13.resume_after_all_complete hwf hwt (xcoro_projects h).1
+
+theorem frame_destroyed_once_over (hwf : w.WF) (hwt : w.WFT) (h : XReach w E ex s) :
+    s.m.frameDestroyed ≤ 1 ∧ s.m.localDtors ≤ w.locals ∧ (s.m.pc = .gone → s.m.frameDestroyed = 1 ∧ s.m.localDtors = w.locals) := by
+  have := C13.frame_destroyed_once hwf hwt (xcoro_projects h).1
+  exact ⟨this.1, this.2.1, this.2.2.1⟩
+
+/-- **"Resumption happens on the executor the awaiter names", with a real executor**: whenever the coroutine is being resumed by
+    `ex` (the segment after On(ex) / AwaitOn(ex, …) / a Yield or sticky resumption on ex) it runs inside a `call` of `E` — the newest
+    job of the coroutine is in phase `calling` — and the record of that resumption says so (`ctx = exec ex`) -/
+theorem resume_on_named_executor_over (hwf : w.WF) (h : XReach w E ex s) (hp : s.m.pc = .wake (.exec ex)) :
+    ∃ j rest, s.calls = j :: rest ∧ s.p j = .calling := by
+  have hi := xinv_reach hwf h
+  obtain ⟨j, rest, hc⟩ := hi.wake hp
+  exact ⟨j, rest, hc, hi.calls_p j (by rw [hc]; exact List.mem_cons_self)⟩
+
+/-- the only `call`s / `drop`s of `E` concern the job the coroutine sits in the queue with -/
+theorem executor_acts_on_the_submitted_job (hwf : w.WF) (h : XReach w E ex s) :
+    (∀ a, s.p a = .pending → s.job = some a ∧ s.m.pc = .queued ex) ∧ (∀ a, s.p a = .calling → a ∈ s.calls) := by
+  have hi := xinv_reach hwf h
+  exact ⟨fun a ha => ⟨hi.owner_p a ha, hi.job_q.mpr (by rw [hi.owner_p a ha]; exact fun h => nomatch h)⟩, hi.owner_c⟩
+
+/-- **a Drop of the real executor is the model's Drop**: the step completes the coroutine with StopError; from then on
+    `stopped_executor_stop_error` applies (never resumed again, nothing else published, frame and live locals destroyed once) -/
+theorem dropped_means_stop_error_over {s' : XState E} (hs : XStep E ex s .drop s') :
+    s'.m.dropped = true ∧ s'.m.result = some .err ∧ s'.m.pc = .fin ∧ s'.job = none := by
+  cases hs with
+  | drop hst _ _ _ _ =>
+      cases hst with
+      | exDrop e h => exact ⟨rfl, rfl, rfl, rfl⟩
+
+theorem stopped_executor_stop_error_over (hwf : w.WF) (hwt : w.WFT) (h : XReach w E ex s) (hd : s.m.dropped = true) :
+    s.m.result = some .err ∧ (∀ r ∈ s.m.published, r = .err) ∧ (∀ r ∈ s.m.resumed, r.k < s.m.k) := by
+  have := C13.stopped_executor_stop_error hwf hwt (xcoro_projects h).1 hd
+  exact ⟨this.2.1, this.2.2.1, this.2.2.2.2⟩
+
+/-- only the coroutine's environment can still act: no step of the coroutine, no event and no internal step of `E` -/
+def XQuiet (E : Exec) (ex : Nat) (s : XState E) : Prop :=
+  ∀ xl s', XStep E ex s xl s' → ∃ l, xl = .plain l ∧ isEnv l = true
+
+/-- nothing is pending or running in `E`, and the coroutine is over (Result published once, frame and locals destroyed once, the
+    whole program resumed unless dropped / failed) or suspended on an unfulfilled object -/
+def QuietDone (w : Workload) {E : Exec} (s : XState E) : Prop :=
+  (∀ a, s.p a ≠ .pending ∧ s.p a ≠ .calling) ∧
+  ((s.m.pc = .gone ∧ s.m.published = [outcome s.m] ∧ s.m.frameDestroyed = 1 ∧ s.m.localDtors = w.locals ∧
+    (s.m.dropped = false → s.m.failed = false → s.m.resumed.map (·.k) = List.range w.prog.length)) ∨ Waiting s.m)
+
+/-- **quiescence over a real executor** (under `ExecContract E`): a quiet composed system has nothing pending in `E`, and
+    `quiescent_complete` holds for the coroutine -/
+theorem quiescent_complete_over (hwf : w.WF) (hwt : w.WFT) (hc : ExecContract E) (h : XReach w E ex s) (hq : XQuiet E ex s) :
+    QuietDone w s := by
+  have hx := xcoro_quiescent hwf hwt hc h hq
+  exact ⟨hx.2, C13.quiescent_complete hwf hwt (xcoro_projects h).1 hx.1⟩
+
+/-! instances: the library's executors -/
+
+theorem quiescent_over_inline (alive : Bool) (hwf : w.WF) (hwt : w.WFT) {s : XState (inlineExec alive)}
+    (h : XReach w (inlineExec alive) ex s) (hq : XQuiet (inlineExec alive) ex s) : QuietDone w s :=
+  quiescent_complete_over hwf hwt (inline_contract alive) h hq
+
+theorem quiescent_over_manual (hwf : w.WF) (hwt : w.WFT) {s : XState (manualExec false)}
+    (h : XReach w (manualExec false) ex s) (hq : XQuiet (manualExec false) ex s) : QuietDone w s :=
+  quiescent_complete_over hwf hwt manual_contract h hq
+
+theorem quiescent_over_pool {n : Nat} (hn : 0 < n) (stop : Option Yaclib.Pool.StopKind) (spur : Bool) (hwf : w.WF) (hwt : w.WFT)
+    {s : XState (poolExec n stop spur)} (h : XReach w (poolExec n stop spur) ex s) (hq : XQuiet (poolExec n stop spur) ex s) :
+    QuietDone w s :=
+  quiescent_complete_over hwf hwt (pool_contract hn stop spur) h hq
+
+theorem quiescent_over_tower {base : Exec} (hb : ExecContract base) (n : Nat) (hwf : w.WF) (hwt : w.WFT)
+    {s : XState (tower base n)} (h : XReach w (tower base n) ex s) (hq : XQuiet (tower base n) ex s) : QuietDone w s :=
+  quiescent_complete_over hwf hwt (tower_satisfies_contract hb n) h hq
+
+/-! non-vacuity: `co_await On(e1)` over the STOPPED inline executor `MakeInline(StopTag{})`: sub 0, drop 0, StopError -/
+
+def wOn : Workload := { prog := [⟨.resched (some 1), [], false⟩], cells := [], ret := .val 7, catches := false, locals := 1 }
+
+example : ∃ s : XState (inlineExec false), XReach wOn (inlineExec false) 1 s ∧ s.m.dropped = true ∧ s.m.result = some .err ∧
+    s.m.resumed = [] ∧ s.p 0 = .finished ∧ s.job = none := by
+  have h0 : XReach wOn (inlineExec false) 1 (xinit wOn _) := .init
+  have h1 := XReach.step h0 (.plain (l := .start) (m' := _) (next_sound rfl) rfl)
+  have e1 : (inlineExec false).step Yaclib.Strand.protInit (XEv.sub 0) (Yaclib.Strand.upd Yaclib.Strand.protInit 0 .pending) :=
+    ⟨rfl, rfl⟩
+  have h2 := XReach.step h1 (.sub (m' := _) (next_sound rfl) e1 rfl rfl)
+  have e2 : (inlineExec false).step (Yaclib.Strand.upd Yaclib.Strand.protInit 0 .pending) (XEv.drop 0)
+      (Yaclib.Strand.upd (Yaclib.Strand.upd Yaclib.Strand.protInit 0 .pending) 0 .finished) := ⟨rfl, rfl, rfl⟩
+  have h3 := XReach.step h2 (.drop (j := 0) (m' := _) (next_sound rfl) rfl rfl e2 rfl)
+  exact ⟨_, h3, rfl, rfl, rfl, rfl, rfl⟩
+
+end Yaclib.Props.C13.Over
 
 /-! ### tie to the source (T2): the kernels this model was written from are unchanged.
 `Extracted/Kernels.lean` is regenerated from /repo on every check run. -/
